@@ -326,12 +326,18 @@ def java_translate_unicode_escapes(text: str) -> Tuple[str, List[Tuple[str, int,
     return "".join(out), problems
 
 
-def balance(text: str, lang: str, max_problems: int = 20) -> List[Tuple[str, int, str]]:
+def balance(
+    text: str, lang: str, max_problems: int = 20, info: Optional[Dict[str, Any]] = None
+) -> List[Tuple[str, int, str]]:
     """Lex ``text`` of ``lang`` and list the problems as ``(kind, line, detail)``.
 
     The kinds: ``unterminated-comment``, ``unterminated-string``, ``unbalanced-bracket``,
     ``stray-closer``, ``illegal-char``, ``illegal-unicode-escape`` (Java only), ``comment-splice`` (C++ only),
-    ``comment-line-terminator`` (a line comment ended by a line terminator other than LF / CR LF).
+    ``comment-line-terminator`` (a line comment ended by a line terminator other than LF / CR LF),
+    ``stray-comment-closer`` (``*/`` in the code).
+
+    If ``info`` is given, ``info["skeleton"]`` is set to the code without the comments and with
+    the white space collapsed.
     """
     assert lang in _LINE_TERMINATORS, lang
     problems: List[Tuple[str, int, str]] = []
@@ -430,6 +436,7 @@ def balance(text: str, lang: str, max_problems: int = 20) -> List[Tuple[str, int
         return text[end - 1], text[k + 1 : end]
 
     conditionals: List[Dict[str, Any]] = []  # the open ``#if`` sections of C++
+    comment_spans: List[Tuple[int, int]] = []
 
     i = 0
     at_line_start = True  # only blanks since the last line terminator
@@ -469,14 +476,17 @@ def balance(text: str, lang: str, max_problems: int = 20) -> List[Tuple[str, int
                         "line comment ended by the line terminator U+%04X, "
                         "the remainder is code" % ord(ending),
                     )
+            comment_spans.append((i, k))
             i = k
             continue
         if two == "/*":
             k = text.find("*/", i + 2)
             if k < 0:
                 report("unterminated-comment", i, "block comment not closed")
+                comment_spans.append((i, n))
                 i = n
             else:
+                comment_spans.append((i, k + 2))
                 i = k + 2
             continue
         # endregion
@@ -671,6 +681,11 @@ def balance(text: str, lang: str, max_problems: int = 20) -> List[Tuple[str, int
             continue
         # endregion
 
+        if c == "*" and text[i + 1 : i + 2] == "/" and text[i + 1 : i + 3] not in ("/*", "//"):
+            report("stray-comment-closer", i, "'*/' in the code")
+            i += 2
+            continue
+
         # region Brackets
         if c in _OPEN:
             stack.append((c, i))
@@ -732,6 +747,15 @@ def balance(text: str, lang: str, max_problems: int = 20) -> List[Tuple[str, int
         report("unbalanced-bracket", pos, "%r never closed" % bracket)
     for cond in conditionals:
         report("unbalanced-bracket", cond["pos"], "#if never closed")
+
+    if info is not None:
+        parts: List[str] = []
+        last = 0
+        for start, end in comment_spans:
+            parts.append(text[last:start])
+            last = end
+        parts.append(text[last:])
+        info["skeleton"] = re.sub(r"\s+", " ", " ".join(parts)).strip()
 
     return problems
 
@@ -859,6 +883,42 @@ def _read(path: pathlib.Path) -> Tuple[Optional[str], Optional[str]]:
 #: depend on the descriptions, so the same content is judged over and over again.
 _VERDICTS: Dict[Tuple[str, str, bytes], List[Tuple[str, str]]] = {}
 
+#: (target, suffix, digest of the content) -> digest of the code without comments / docstrings
+_SKELETONS: Dict[Tuple[str, str, bytes], Optional[bytes]] = {}
+
+
+def python_skeleton(text: str) -> Optional[str]:
+    """Dump the syntax tree of ``text`` without the string statements (docstrings)."""
+    try:
+        tree = ast.parse(text)
+    except (SyntaxError, ValueError):
+        return None
+    for node in ast.walk(tree):
+        body = getattr(node, "body", None)
+        if isinstance(body, list):
+            kept = [
+                stmt
+                for stmt in body
+                if not (
+                    isinstance(stmt, ast.Expr)
+                    and isinstance(stmt.value, ast.Constant)
+                    and isinstance(stmt.value.value, str)
+                )
+            ]
+            node.body = kept  # type: ignore
+    return ast.dump(tree, annotate_fields=False, include_attributes=False)
+
+
+def skeleton_of(target: str, path: pathlib.Path) -> Optional[bytes]:
+    """Give the digest of the code of ``path`` without comments (``None`` if not applicable)."""
+    suffix = path.suffix
+    if suffix != ".py" and suffix not in LEXED_SUFFIXES:
+        return None
+    key = (target, suffix, hashlib.sha1(path.read_bytes()).digest())
+    if key not in _SKELETONS:
+        check_file_without_compiler(target, path, path.name)
+    return _SKELETONS.get(key)
+
 
 def check_file_without_compiler(target: str, path: pathlib.Path, rel: str) -> List[Dict[str, str]]:
     """Judge one file with the in-process judges."""
@@ -868,15 +928,19 @@ def check_file_without_compiler(target: str, path: pathlib.Path, rel: str) -> Li
     key = (target, suffix, hashlib.sha1(path.read_bytes()).digest())
     verdict = _VERDICTS.get(key)
     if verdict is None:
-        verdict = [(p["sig"], p["what"]) for p in _judge_file(target, path, rel)]
+        verdict = [(p["sig"], p["what"]) for p in _judge_file(target, path, rel, key)]
         if len(_VERDICTS) > 200000:
             _VERDICTS.clear()
+            _SKELETONS.clear()
         _VERDICTS[key] = verdict
     return [{"file": rel, "sig": sig, "what": what} for sig, what in verdict]
 
 
-def _judge_file(target: str, path: pathlib.Path, rel: str) -> List[Dict[str, str]]:
+def _judge_file(
+    target: str, path: pathlib.Path, rel: str, key: Tuple[str, str, bytes]
+) -> List[Dict[str, str]]:
     problems: List[Dict[str, str]] = []
+    _SKELETONS[key] = None
     suffix = path.suffix
 
     def add(sig: str, what: str) -> None:
@@ -897,6 +961,9 @@ def _judge_file(target: str, path: pathlib.Path, rel: str) -> List[Dict[str, str
                 "ast.parse: %s at line %s: %r"
                 % (exc, line, (getattr(exc, "text", "") or "")[:160]),
             )
+        dumped = python_skeleton(text)
+        if dumped is not None:
+            _SKELETONS[key] = hashlib.sha1(dumped.encode("utf-8", "surrogatepass")).digest()
     elif suffix == ".json":
         try:
             json.loads(text)
@@ -910,7 +977,10 @@ def _judge_file(target: str, path: pathlib.Path, rel: str) -> List[Dict[str, str
     else:
         lang = LEXED_SUFFIXES[suffix]
         seen = set()
-        for kind, line, detail in balance(text, lang):
+        info: Dict[str, Any] = {}
+        lexed = balance(text, lang, info=info)
+        _SKELETONS[key] = hashlib.sha1(info["skeleton"].encode("utf-8", "surrogatepass")).digest()
+        for kind, line, detail in lexed:
             if kind in seen:
                 continue
             seen.add(kind)
@@ -1249,6 +1319,21 @@ def _nasty() -> List[Tuple[str, str]]:
 
 NASTY: List[Tuple[str, str]] = _nasty()
 
+#: The names of a subset of :py:data:`NASTY` for a quick run (one or two texts per root cause).
+NASTY_QUICK_NAMES = [
+    "ends-dquote", "ends-triple-dquote", "ends-triple-squote", "ends-backslash-dquote",
+    "star-slash-middle", "star-slash-literal-end", "slash-star", "line-starts-with-star-slash",
+    "backslash-end", "backslash-end-literal", "backslash-end-of-middle-line",
+    "windows-path-Users", "backslash-x", "backslash-N", "backslash-u-star-slash-literal",
+    "backslash-uu", "xml-specials", "xml-comment-end", "xml-cdata-end", "xml-summary-end-tag",
+    "xml-entity", "ctrl-0001", "ctrl-007f", "ctrl-2028", "ctrl-0085-glued", "lone-cr", "crlf",
+    "nonchar-fffe", "astral", "dollar-brace", "dollar-brace-in-literal", "hash-define",
+    "javadoc-tags", "unbalanced-brace", "format-specifiers", "long-word-with-specials",
+    "multi-paragraph", "constraint-field", "rejected-lone-star",
+]
+NASTY_QUICK: List[Tuple[str, str]] = [(nm, d) for nm, d in NASTY if nm in set(NASTY_QUICK_NAMES)]
+assert len(NASTY_QUICK) == len(NASTY_QUICK_NAMES), "unknown name in NASTY_QUICK_NAMES"
+
 #: Accepted by the front end, but five generators crash on it by design
 #: (``assert "`" not in text`` in ``transform_literal`` of python / java / typescript / golang / cpp
 #: ``description.py``); kept out of :py:data:`NASTY`.
@@ -1288,6 +1373,52 @@ def _fast_scratch(ctx: Any) -> Tuple[pathlib.Path, bool]:
     return pathlib.Path(ctx.scratch()), False
 
 
+def skeletons_of_tree(target: str, out: pathlib.Path) -> Dict[str, Optional[bytes]]:
+    """Map the relative paths of the judged files below ``out`` to their skeleton digests."""
+    result: Dict[str, Optional[bytes]] = {}
+    for p in _files_of(out):
+        if p.suffix == ".py" or p.suffix in LEXED_SUFFIXES:
+            result[str(p.relative_to(out))] = skeleton_of(target, p)
+    return result
+
+
+def skeleton_problems(
+    target: str, out: pathlib.Path, baseline: Dict[str, Optional[bytes]]
+) -> List[Dict[str, str]]:
+    """Compare the code without the comments with the one generated for a harmless description.
+
+    The descriptions end up only in comments and docstrings, so whatever they are, the rest of the
+    code must not change.  A difference means that a part of a description leaked into the code
+    (or swallowed some code).
+    """
+    problems: List[Dict[str, str]] = []
+    mine = skeletons_of_tree(target, out)
+    for rel in sorted(set(mine) | set(baseline)):
+        lang = "python" if rel.endswith(".py") else _SIG_LANG[LEXED_SUFFIXES[pathlib.Path(rel).suffix]]
+        if rel not in mine or rel not in baseline:
+            problems.append(
+                {
+                    "file": rel,
+                    "sig": "C20:file:%s:file-set" % lang,
+                    "what": "the file is %s for the description, but %s for a harmless description"
+                    % (
+                        "generated" if rel in mine else "not generated",
+                        "generated" if rel in baseline else "not generated",
+                    ),
+                }
+            )
+        elif mine[rel] is not None and baseline[rel] is not None and mine[rel] != baseline[rel]:
+            problems.append(
+                {
+                    "file": rel,
+                    "sig": "C20:file:%s:skeleton" % lang,
+                    "what": "the code outside the comments and the docstrings differs from the code "
+                    "generated for a harmless description",
+                }
+            )
+    return problems
+
+
 def run(ctx: Any, descs: Iterable[Tuple[str, str]], use_compilers: bool) -> None:
     """Generate and judge ``descs``; the Java trees are parsed by javac in a few batches.
 
@@ -1304,6 +1435,18 @@ def run(ctx: Any, descs: Iterable[Tuple[str, str]], use_compilers: bool) -> None
     t_generate = t_judge = 0.0
     try:
         batcher = JavacBatcher(scratch / "javac_work") if use_compilers else None
+
+        # region Baseline for the skeleton comparison
+        baseline: Dict[str, Dict[str, Optional[bytes]]] = {}
+        if os.environ.get("C20_FILES_SKELETON", "1") != "0":
+            started = time.time()
+            baseline_dir = scratch / "baseline"
+            for target, r in generate(PLAIN, baseline_dir, TARGETS, variant=0).items():
+                if r["rc"] == 0:
+                    baseline[target] = skeletons_of_tree(target, r["out"])
+            shutil.rmtree(baseline_dir, ignore_errors=True)
+            t_generate += time.time() - started
+        # endregion
         pending_java: List[Tuple[int, pathlib.Path]] = []
         entries: List[Dict[str, Any]] = []
 
@@ -1357,6 +1500,10 @@ def run(ctx: Any, descs: Iterable[Tuple[str, str]], use_compilers: bool) -> None
                 entry["problems"][target] = check_tree(
                     target, r["out"], base / ("work_" + target), use_compilers=False
                 )
+                if target in baseline:
+                    entry["problems"][target].extend(
+                        skeleton_problems(target, r["out"], baseline[target])
+                    )
                 entry["checked"] += count_checked_files(r["out"])
                 if target == "java" and batcher is not None:
                     pending_java.append((index, r["out"]))
@@ -1446,6 +1593,8 @@ if __name__ == "__main__":
     parser.add_argument("--selftest", action="store_true")
     parser.add_argument("--no-compilers", action="store_true")
     parser.add_argument("--only", nargs="*", help="names of the nasty descriptions")
+    parser.add_argument("--quick", action="store_true", help="only NASTY_QUICK")
+    parser.add_argument("--crashing", action="store_true", help="only NASTY_CRASHING")
     parser.add_argument("--scratch", default=None)
     args = parser.parse_args()
 
@@ -1454,7 +1603,8 @@ if __name__ == "__main__":
 
     root = pathlib.Path(args.scratch or tempfile.mkdtemp(prefix="c20_files_"))
     fake = _FakeCtx(root)
-    chosen = [(nm, d) for nm, d in NASTY if not args.only or nm in args.only]
+    pool = NASTY_CRASHING if args.crashing else (NASTY_QUICK if args.quick else NASTY)
+    chosen = [(nm, d) for nm, d in pool if not args.only or nm in args.only]
     started = time.time()
     run(fake, chosen, use_compilers=not args.no_compilers)
     print("run over %d description(s) took %.1f s" % (len(chosen), time.time() - started))
